@@ -291,7 +291,8 @@ func pumpOp(r *rand.Rand, data []byte, B int, style string) map[string]any {
 	op := map[string]any{"op": "pump", "data": B2(data), "chunk": chunk, "mode": mode,
 		"rmax": pickInt(r, 0, 0, 1, 2, 3, 5, 17), "seed": r.Intn(1 << 30),
 		"pntl": pickInt(r, 0, 0, 30, 60, 100), "pnil": pickInt(r, 0, 0, 0, 10, 30),
-		"pearly": pickInt(r, 0, 10, 50), "pprobe": pickInt(r, 0, 10, 30), "pshrink": pickInt(r, 0, 5, 30)}
+		"pearly": pickInt(r, 0, 10, 50), "pprobe": pickInt(r, 0, 10, 30), "pshrink": pickInt(r, 0, 5, 30),
+		"pstop": pickInt(r, 0, 0, 0, 20, 50), "reuse": r.Intn(2) == 0}
 	switch style {
 	case "ntl":
 		op["pnil"] = 0
@@ -356,7 +357,7 @@ func genParser(seed int64, n int, tier string, kinds []string, style string) []S
 		var ops []map[string]any
 		tags := []string{"go", kind, class}
 		// optional prior history + Reset
-		if r.Intn(5) == 0 && style != "nonil" && style != "ntl" {
+		if r.Intn(5) == 0 {
 			pre, _ := genInput(r, r.Intn(120))
 			ops = append(ops, pumpOp(r, pre, B, style))
 			if r.Intn(2) == 0 {
@@ -551,7 +552,89 @@ func genParserCollide(seed int64, n int, tier string) []Script {
 	return out
 }
 
-func init() { generators["parser-collide"] = genParserCollide }
+// genParserNTLFuture: NoTrailingLiterals re-offers the trailing literals of a
+// block; the hash parsers have already entered those positions into their
+// tables, so the next Parse meets entries AHEAD of its position. Each block
+// starts with a short run (a match, so that the rewind happens) followed by
+// periodic text whose period exceeds the window (no match possible, long
+// agreement between a position and its successors one period ahead).
+func genParserNTLFuture(seed int64, n int, tier string) []Script {
+	r := rand.New(rand.NewSource(seed))
+	kinds := []string{"HP", "BHP", "DHP", "BDHP", "BUP"}
+	var out []Script
+	for i := 0; i < n; i++ {
+		kind := kinds[i%len(kinds)]
+		P := 5 + r.Intn(8)
+		W := pickInt(r, 1, 2, 3, 4, P-1, 1<<32-8, 1<<32-8)
+		blk := 6 + 2*P + 10 + r.Intn(12)
+		B := pickInt(r, 3*blk, 4*blk+5, 200)
+		cfg := map[string]any{"kind": kind, "BufferSize": B, "ShrinkSize": pickInt(r, 0, B/2), "WindowSize": W, "BlockSize": blk}
+		switch kind {
+		case "HP", "BHP":
+			cfg["InputLen"], cfg["HashBits"] = pickInt(r, 2, 3, 4), pickInt(r, 2, 4, 8, 12)
+		case "BUP":
+			cfg["InputLen"], cfg["HashBits"], cfg["BucketSize"] = pickInt(r, 2, 3, 4), pickInt(r, 2, 4, 8), pickInt(r, 1, 2, 4)
+		default:
+			il1 := pickInt(r, 2, 3)
+			cfg["InputLen1"], cfg["InputLen2"] = il1, il1+1+r.Intn(3)
+			cfg["HashBits1"], cfg["HashBits2"] = pickInt(r, 2, 4, 8), pickInt(r, 2, 4, 8)
+		}
+		pat := make([]byte, P)
+		for j := range pat {
+			pat[j] = byte('a' + j)
+		}
+		var data []byte
+		for len(data) < 3*blk+10 {
+			c := byte('0' + r.Intn(3))
+			for j := 0; j < 6; j++ {
+				data = append(data, c)
+			}
+			for j := 0; j < blk-6; j++ {
+				data = append(data, pat[j%P])
+			}
+		}
+		op := pumpOp(r, data, B, "mixed")
+		op["chunk"], op["mode"], op["pntl"], op["pnil"], op["pearly"], op["pstop"] = len(data)+1, "write", 100, 0, 0, 0
+		out = append(out, Script{Tid: "parser-ntlfuture-" + itoa(seed) + "-" + itoa(int64(i)), Comp: "parser", Cfg: cfg,
+			Ops: []map[string]any{op}, Tags: []string{"go", kind, "ntlfuture"}})
+	}
+	return out
+}
+
+// genParserOSAPLong: OSAP on long blocks (600..1400 bytes) with repeats longer
+// than 273 bytes and MaxMatchLen above, at and below that; judged by the
+// greedy upper bound (C11.not_above_greedy), the cubic optimum being out of
+// reach there.
+func genParserOSAPLong(seed int64, n int, tier string) []Script {
+	r := rand.New(rand.NewSource(seed))
+	var out []Script
+	for i := 0; i < n; i++ {
+		chunk := 280 + r.Intn(420)
+		base := make([]byte, chunk)
+		for j := range base {
+			base[j] = byte(r.Intn(256))
+		}
+		data := append(append([]byte{}, base...), base...)
+		if r.Intn(2) == 0 {
+			data[chunk+r.Intn(chunk)] ^= 0x40 // one defect in the copy
+		}
+		data = append(data, byte(r.Intn(256)))
+		B := len(data) + r.Intn(50)
+		cfg := map[string]any{"kind": "OSAP", "BufferSize": B, "ShrinkSize": B / 2, "WindowSize": pickInt(r, B, 2*B, 0),
+			"BlockSize": pickInt(r, 0, B, 4096), "MinMatchLen": pickInt(r, 2, 3, 0), "MaxMatchLen": pickInt(r, 0, 273, 274, 1000, 4096, 100)}
+		out = append(out, Script{Tid: "parser-osaplong-" + itoa(seed) + "-" + itoa(int64(i)), Comp: "parser", Cfg: cfg,
+			Ops: []map[string]any{{"op": "write", "p": B2(data)}, {"op": "parse", "flags": 0, "witness": true},
+				{"op": "parse", "flags": 0, "witness": true}},
+			Tags: []string{"go", "OSAP", "longblock"}})
+	}
+	return out
+}
+
+func init() {
+	generators["parser-osap-long"] = genParserOSAPLong
+	generators["parser-collide"] = genParserCollide
+	generators["parser-ntlfuture"] = genParserNTLFuture
+}
 
 // genParserCap: the capacity boundary of the internal buffer. ParserBuffer
 // grows its slice to 2t+7 bytes (at least 1024, at most BufferSize+7), and
